@@ -418,7 +418,7 @@ func runC15(rc *RunCtx) {
 		StepOracle: c15Step, StateOracle: c15State}
 	depth, budget, maxTraces := 4, 120*time.Second, 1500
 	if rc.Thorough() {
-		depth, budget, maxTraces = 5, 25*time.Minute, 20000
+		depth, budget, maxTraces = 6, 25*time.Minute, 20000
 	}
 	// in mode B the links are additionally compared after every event, with real commits in between
 	sys := scnSystem{scn}
